@@ -34,7 +34,8 @@ static ALLOC: SimAlloc = SimAlloc;
 
 fn family(prop: &str) -> Option<&'static Family> {
     match prop {
-        "C01" | "C02" | "C03" | "C04" => Some(&simcore::props::FAMILY),
+        "C02" => Some(&simcore::combined::FAMILY_C02),
+        "C01" | "C03" | "C04" => Some(&simcore::props::FAMILY),
         "C05" | "C07" | "C10" | "C11" => Some(&simcore::vmprops::FAMILY),
         "C20" => Some(&locksim::c20::FAMILY),
         "C06" => Some(&simcore::c06::FAMILY),
